@@ -84,3 +84,46 @@ pub fn real_shift_b(_: &impl Shift, a: u8) -> u8 {
     a.wrapping_add(1)
 }
 //@trait-end Shift
+
+//@trait-begin Gen2
+#[unimock(api = Gen2Mock)]
+pub trait Gen2<T: 'static> {
+    fn m<U: 'static>(&self, t: T, u: U) -> u8;
+}
+/// `with_types` takes the trait-level type arguments first, then the method-level ones
+pub fn gen2_with_types() -> impl Sized {
+    Gen2Mock::m.with_types::<u8, u16>()
+}
+//@trait-end Gen2
+
+//@trait-begin Hid
+#[unimock(unmock_with = [real_hid, _])]
+pub trait Hid {
+    fn hid(&self, a: u8) -> u8;
+    fn hid2(&self, a: u8) -> u8;
+}
+pub fn real_hid(_: &impl Hid, a: u8) -> u8 {
+    a
+}
+//@trait-end Hid
+
+//@trait-begin Konst
+#[unimock(api = KonstMock, const K: u8 = 7; const J: u8 = 9;)]
+pub trait Konst {
+    const K: u8 = 1;
+    const J: u8;
+    fn kreq(&self, a: u8) -> u8;
+    fn kprov(&self, a: u8) -> u8 {
+        self.kreq(a.wrapping_add(Self::K).wrapping_add(Self::J))
+    }
+}
+//@trait-end Konst
+
+//@trait-begin Sinky
+pub struct Sink<'a>(pub &'a mut u8);
+#[unimock(api = SinkyMock)]
+pub trait Sinky {
+    fn put(&mut self, s: &mut Sink<'_>, v: u8) -> u8;
+    fn put_ref(&self, s: &mut Sink<'_>, v: u8) -> u8;
+}
+//@trait-end Sinky
